@@ -452,3 +452,48 @@ def pipe_final_concrete(sp, game, args):
             sp.prove(fin[s] == exp, "final strategy of state %d is %s, exact reward-optimal permitted actions %s" % (s, fin[s], exp))
             if g.players[s] == P1:
                 sp.prove(set(fin[s]) <= set(rstrat[s]), "final strategy of state %d leaves its reachability strategy" % s)
+
+
+# ------------------------------------------------------------------ C03: conditioning inside the pipeline
+@harness("pipe.conditioning", props=["C03"], jobs=lambda tier, seed: [dict(game=g, args=a, _cost=1) for g, a in _stopping_instances(tier)],
+         covers=["dead_removed", "p2_kept", "renormalised"], stubs=["logging -> sweep counter"],
+         bounds="all stopping template instances (dead(K) family: every arrangement of dead / alive / tiny-valued / dead-but-connected "
+                "successors); concrete numbers; the pipeline's own call sequence (check_game, init_states, solve_reachability, "
+                "prune_reachability, prune_stochastich_game) is replayed with the real functions",
+         desc="CONCRETE differential: the transition lists the real pipeline leaves at every state reachable from the initial state "
+              "equal the reference conditioning of the input description (dead transitions gone, survivors in order with p/sum(alive), "
+              "Player 2 untouched)")
+def pipe_conditioning(sp, game, args):
+    t = tad_pipe()
+    g = build(game, args)
+    desc = dict(rewards=[1 if r == G.SYM else r for r in g.rewards], players=list(g.players),
+                transition_list=[list(x) for x in g.tl], final_states=list(g.finals))
+    t.logging.reset(400)
+    sg = t.StochasticGame(prune_states=True, **copy.deepcopy(desc))
+    sg.check_game()
+    state_list = sg.init_states()
+    solver = t.Solver(threshold=10 ** (-6), state_list=state_list)
+    try:
+        strat, _ = solver.solve_reachability(sg.transition_list, sg.final_states, True)
+    except ValueError as e:
+        sp.prove("no solution" in str(e), "unexpected error %s" % e)
+        return
+    probs = [st.reach_probability for st in state_list]
+    solver.prune_reachability(strat)
+    solver.prune_stochastich_game()
+    ref = G.condition(g.players, g.tl, probs, strat, True)
+    for s in sorted(G.reach_from0(ref)):
+        got = state_list[s].next_states
+        sp.prove(len(got) == len(ref[s]), "state %d keeps %s, reference conditioning %s" % (s, got, ref[s]))
+        for a, b in zip(got, ref[s]):
+            sp.prove(a[1] == b[1] and (a[0] == b[0] if isinstance(b[0], str) else abs(a[0] - b[0]) <= 1e-12),
+                     "state %d keeps %s, reference conditioning %s" % (s, got, ref[s]))
+        for _, tgt in got:
+            sp.prove(probs[tgt] != 0, "state %d keeps a transition into state %d of probability 0" % (s, tgt))
+        if len(ref[s]) < len(g.tl[s]):
+            sp.cover("dead_removed")
+            if g.players[s] == PR and ref[s]:
+                sp.cover("renormalised")
+        if g.players[s] == P2:
+            sp.cover("p2_kept")
+            sp.prove(got == g.tl[s], "Player 2 state %d lost a transition" % s)
